@@ -17,7 +17,7 @@ ASSUMPTIONS = [LEVEL_NOTE, "the compiler's own sizeof/offsetof are ground truth"
 
 
 def plan(tier):
-    return {"n": 250 if tier == "quick" else 3000, "floor": 50 if tier == "quick" else 600}
+    return {"n": 250 if tier == "quick" else 1000, "floor": 50 if tier == "quick" else 200}
 
 
 def rule(tier):
